@@ -109,6 +109,7 @@ def run(chk):
     # ---- exhaustive short histories over a small alphabet -----------------------
     alpha = [("addp", 0, "p", "x + 1"), ("addp", 0, "p", "[x, 2].map(x, x * 10)[0]"), ("addp", 0, "q", "p + x"),
              ("addp", 1, "p", "x - 1"), ("addp", 1, "q", "{'b': 1, 'a': x}.map(k, k)"),
+             ("addp", 0, "p", "7"), ("addp", 0, "p", "'a' + 'b'"),          # programs without parameters (constants)
              ("bind", 0, "x", vi(2)), ("bind", 0, "x", vi(5)), ("bind", 1, "x", vi(7)),
              ("clonec", 0, 1), ("clonec", 1, 0), ("cloneb", 0, 1), ("cloneb", 1, 0),
              ("exec", 0, 0, "p"), ("exec", 1, 1, "q"), ("exec", 0, 1, "q"), ("params", 0, "q")]
@@ -121,7 +122,7 @@ def run(chk):
         rest = [h for h in hists if len(h) == 4]
         rng.shuffle(rest)
         hists = keep + rest[:36000]
-    cases, impl = check_histories(chk, "all histories up to length %d over a 16-operation alphabet" % maxlen, hists,
+    cases, impl = check_histories(chk, "all histories up to length %d over an 18-operation alphabet" % maxlen, hists,
                                   [0, 1], [0, 1], ["p", "q"], set(), exhaustive=(maxlen == 3 or len(hists) < 40000))
     chk.sample(dict(case=cases[777], impl=impl[777]))
     # ---- random longer histories over richer programs ---------------------------------
